@@ -1,7 +1,17 @@
 // @unit id=v_connection props=C09,C15,C17,C07,C14,C08 tier=quick
 // Verus contracts on the REAL bodies of src/proto/connection.rs (extracted on every run): the error-containment and
 // shutdown plumbing of DynConnection — `handle_poll2_result`, `handle_go_away`, `go_away`, `go_away_now`,
-// `go_away_now_data`, `go_away_from_user`, `recv_frame`.
+// `go_away_now_data`, `go_away_from_user`, `recv_frame` —, `Connection::go_away_gracefully`, and the DRIVER:
+// `Connection::{poll, poll2, poll_ready, poll_go_away, take_error}` and `Streams::send_pending_refusal` (streams.rs).
+//
+// Driver (C08 / C14 / C07 / C15):  I-single-slot — the PING ACK owed, the SETTINGS ACK owed and the RST_STREAM(REFUSED_STREAM)
+//   owed occupy one-element slots whose emptiness `recv_ping`, `recv_settings` and `Recv::open` assert! — is ESTABLISHED by
+//   poll_ready (Ready(Ok) only with all three handed to the codec) and poll2 takes a frame from the codec only after that:
+//   the three asserts are obligations at the call sites in poll2 / recv_frame and are discharged.  The connection future
+//   resolves only with an I/O error or, in state Closed(code, initiator), with exactly the recorded outcome (the peer's GOAWAY
+//   code if it sent one with an error, else our code and initiator, else Ok); Closed is entered from Closing only after
+//   `codec.shutdown` completed (the GOAWAY we owe is flushed first); the debug_assert "graceful GOAWAY should be NO_ERROR"
+//   is discharged from I-graceful.
 //
 // C09 containment:  a STREAM error raised while reading a frame is answered with exactly one RST_STREAM(id, code) for
 //   that stream and the connection carries on (state untouched, no GOAWAY, no other stream failed); a reset that came
@@ -52,6 +62,13 @@ impl Error {
     pub fn clone(&self) -> (r: Error) ensures r == *self { *self }
 }
 
+/// errors raised while READING carry Initiator::Library (this endpoint's own checks) or Initiator::Remote (a reset the peer
+/// sent), never Initiator::User — the constructors used by the codec and the streams layer (Error::library_reset,
+/// library_go_away, remote_reset, From<io::Error>); ASSUMED of the external functions below, proved of recv_frame / poll2
+pub open spec fn read_error(r: Result<(), Error>) -> bool {
+    r matches Err(Error::Reset(_, _, i)) ==> i != Initiator::User
+}
+
 /// crate::proto::error::GoAway { debug_data, reason } — what Streams::send_reset reports when the reset quota is exhausted
 pub struct ErrGoAway { pub reason: Reason }
 
@@ -74,6 +91,9 @@ pub mod frame {
 /// proto::GoAway (src/proto/go_away.rs; its real bodies: unit v_go_away): logs the frames it is handed
 pub struct GoAway {
     pub going_away_reason: Option<Reason>,
+    pub close_now: bool,                       // set by go_away_now / go_away_from_user, never cleared
+    pub is_user_initiated: bool,
+    pub pending_code: Option<Reason>,          // error code of the GOAWAY frame waiting to be written, if any
     pub now: Ghost<Seq<frame::GoAway>>,        // go_away_now(f) calls
     pub graceful: Ghost<Seq<frame::GoAway>>,   // go_away(f) calls
     pub from_user: Ghost<Seq<frame::GoAway>>,  // go_away_from_user(f) calls
@@ -81,16 +101,16 @@ pub struct GoAway {
 impl GoAway {
     #[verifier::external_body]
     pub fn go_away(&mut self, f: frame::GoAway)
-        ensures *final(self) == (GoAway { graceful: Ghost(old(self).graceful@.push(f)), going_away_reason: Some(f.error_code), ..*old(self) }),
+        ensures *final(self) == (GoAway { graceful: Ghost(old(self).graceful@.push(f)), going_away_reason: Some(f.error_code), pending_code: Some(f.error_code), ..*old(self) }),
     { unimplemented!() }
     #[verifier::external_body]
     pub fn go_away_now(&mut self, f: frame::GoAway)
-        ensures *final(self) == (GoAway { now: Ghost(old(self).now@.push(f)), going_away_reason: final(self).going_away_reason, ..*old(self) }),
+        ensures *final(self) == (GoAway { now: Ghost(old(self).now@.push(f)), going_away_reason: final(self).going_away_reason, close_now: true, pending_code: final(self).pending_code, ..*old(self) }),
             final(self).going_away_reason is Some,     // v_go_away: either one is recorded already or this one is
     { unimplemented!() }
     #[verifier::external_body]
     pub fn go_away_from_user(&mut self, f: frame::GoAway)
-        ensures *final(self) == (GoAway { from_user: Ghost(old(self).from_user@.push(f)), going_away_reason: final(self).going_away_reason, ..*old(self) }),
+        ensures *final(self) == (GoAway { from_user: Ghost(old(self).from_user@.push(f)), going_away_reason: final(self).going_away_reason, close_now: true, is_user_initiated: true, pending_code: final(self).pending_code, ..*old(self) }),
             final(self).going_away_reason is Some,
     { unimplemented!() }
     /// `self.go_away.going_away().map_or(false, |frame| frame.reason() == reason)` written out
@@ -101,6 +121,7 @@ impl GoAway {
 
 /// DynStreams: logs what the connection layer asks of the streams layer
 pub struct DynStreams {
+    pub refused_owed: bool,                           // Recv::refused is Some: a RST_STREAM(REFUSED_STREAM) is owed (single slot)
     pub last_processed_id: StreamId,
     pub buffer_empty: bool,
     pub server: bool,
@@ -147,27 +168,29 @@ pub enum Call { Headers(u8), Data(u8), Reset(u8), PushPromise(u8), GoAway(FGoAwa
 impl DynStreams {
     #[verifier::external_body]
     pub fn recv_headers(&mut self, frame: u8) -> (r: Result<(), Error>)
-        ensures *final(self) == (DynStreams { calls: Ghost(old(self).calls@.push(Call::Headers(frame))), ..*old(self) }),
+        requires !old(self).refused_owed,       // the real `assert!(self.refused.is_none())` of Recv::open (I-single-slot)
+        ensures read_error(r), *final(self) == (DynStreams { calls: Ghost(old(self).calls@.push(Call::Headers(frame))), refused_owed: final(self).refused_owed, ..*old(self) }),
     { unimplemented!() }
     #[verifier::external_body]
     pub fn recv_data(&mut self, frame: u8) -> (r: Result<(), Error>)
-        ensures *final(self) == (DynStreams { calls: Ghost(old(self).calls@.push(Call::Data(frame))), ..*old(self) }),
+        ensures read_error(r), *final(self) == (DynStreams { calls: Ghost(old(self).calls@.push(Call::Data(frame))), ..*old(self) }),
     { unimplemented!() }
     #[verifier::external_body]
     pub fn recv_reset(&mut self, frame: u8) -> (r: Result<(), Error>)
-        ensures *final(self) == (DynStreams { calls: Ghost(old(self).calls@.push(Call::Reset(frame))), ..*old(self) }),
+        ensures read_error(r), *final(self) == (DynStreams { calls: Ghost(old(self).calls@.push(Call::Reset(frame))), ..*old(self) }),
     { unimplemented!() }
     #[verifier::external_body]
     pub fn recv_push_promise(&mut self, frame: u8) -> (r: Result<(), Error>)
-        ensures *final(self) == (DynStreams { calls: Ghost(old(self).calls@.push(Call::PushPromise(frame))), ..*old(self) }),
+        requires !old(self).refused_owed,       // Recv::open again (a promised stream is opened)
+        ensures read_error(r), *final(self) == (DynStreams { calls: Ghost(old(self).calls@.push(Call::PushPromise(frame))), refused_owed: final(self).refused_owed, ..*old(self) }),
     { unimplemented!() }
     #[verifier::external_body]
     pub fn recv_window_update(&mut self, frame: u8) -> (r: Result<(), Error>)
-        ensures *final(self) == (DynStreams { calls: Ghost(old(self).calls@.push(Call::WindowUpdate(frame))), ..*old(self) }),
+        ensures read_error(r), *final(self) == (DynStreams { calls: Ghost(old(self).calls@.push(Call::WindowUpdate(frame))), ..*old(self) }),
     { unimplemented!() }
     #[verifier::external_body]
     pub fn recv_go_away(&mut self, frame: &FGoAway) -> (r: Result<(), Error>)
-        ensures *final(self) == (DynStreams { calls: Ghost(old(self).calls@.push(Call::GoAway(*frame))), ..*old(self) }),
+        ensures read_error(r), *final(self) == (DynStreams { calls: Ghost(old(self).calls@.push(Call::GoAway(*frame))), ..*old(self) }),
     { unimplemented!() }
     /// Streams::recv_eof: Err only for a poisoned mutex (Inner::recv_eof always returns Ok: unit v_streams)
     #[verifier::external_body]
@@ -183,18 +206,19 @@ pub struct ReceivedPing { pub shutdown: bool }
 impl ReceivedPing {
     pub fn is_shutdown(&self) -> (r: bool) ensures r == self.shutdown { self.shutdown }
 }
-pub struct PingPong { pub shutdown_pending: bool }
+pub struct PingPong { pub shutdown_pending: bool, pub pong_owed: bool }
 impl PingPong {
     /// PingPong::ping_shutdown (Kani unit pp_new_take_shutdown): queues the graceful-shutdown PING; the real body asserts
     /// that none is outstanding
     #[verifier::external_body]
     pub fn ping_shutdown(&mut self)
         requires !old(self).shutdown_pending,
-        ensures final(self).shutdown_pending,
+        ensures final(self).shutdown_pending, final(self).pong_owed == old(self).pong_owed,
     { unimplemented!() }
 
     #[verifier::external_body]
     pub fn recv_ping(&mut self, frame: u8) -> (r: ReceivedPing)
+        requires !old(self).pong_owed,          // the real `assert!(self.pending_pong.is_none())` (I-single-slot; unit v_ping_pong)
         ensures r.shutdown ==> old(self).shutdown_pending && !final(self).shutdown_pending, !r.shutdown ==> final(self).shutdown_pending == old(self).shutdown_pending,
     { unimplemented!() }
 }
@@ -216,6 +240,16 @@ pub open spec fn i_shutdown(c: DynConnection) -> bool {
     c.ping_pong.shutdown_pending ==> c.go_away.going_away_reason is Some
 }
 
+/// I-single-slot: the one-element slots a received frame may fill are empty (established by Connection::poll_ready below)
+pub open spec fn slots_free(c: DynConnection) -> bool {
+    !c.ping_pong.pong_owed && !c.streams.refused_owed
+}
+
+/// I-graceful: a GOAWAY that is queued while no immediate close was asked for is a graceful one, and those carry NO_ERROR
+pub open spec fn i_graceful(c: DynConnection) -> bool {
+    !c.go_away.close_now ==> (c.go_away.pending_code matches Some(x) ==> x == Reason::NO_ERROR)
+}
+
 impl DynConnection {
     /// `self.error.as_ref().map(|f| f.reason() == Reason::NO_ERROR) == Some(true)` written out
     pub fn peer_said_no_error(&self) -> (r: bool)
@@ -229,6 +263,7 @@ impl DynConnection {
     //@spec         final(self).state == old(self).state && final(self).error == old(self).error && final(self).ping_pong == old(self).ping_pong,
     //@spec         final(self).streams == (DynStreams { go_aways: final(self).streams.go_aways, ..old(self).streams }),
     //@spec         final(self).go_away.now@ == old(self).go_away.now@ && final(self).go_away.from_user@ == old(self).go_away.from_user@ && final(self).go_away.going_away_reason == Some(e),
+    //@spec         final(self).go_away.close_now == old(self).go_away.close_now && final(self).go_away.pending_code == Some(e),
     //@end
 
     //@extract src/proto/connection.rs DynConnection::go_away_now
@@ -236,7 +271,7 @@ impl DynConnection {
     //@spec         // C15: the id in our GOAWAY is the highest peer stream handed to the application
     //@spec         final(self).go_away.now@ == old(self).go_away.now@.push(frame::GoAway { last_stream_id: old(self).streams.last_processed_id, error_code: e }),
     //@spec         final(self).state == old(self).state && final(self).streams == old(self).streams && final(self).error == old(self).error,
-    //@spec         final(self).ping_pong == old(self).ping_pong && final(self).go_away.going_away_reason is Some,
+    //@spec         final(self).ping_pong == old(self).ping_pong && final(self).go_away.going_away_reason is Some && final(self).go_away.close_now,
     //@end
 
     //@extract src/proto/connection.rs DynConnection::go_away_now_data
@@ -246,7 +281,7 @@ impl DynConnection {
     //@spec         final(self).go_away.now@ == old(self).go_away.now@.push(frame::GoAway { last_stream_id: old(self).streams.last_processed_id, error_code: e }),
     //@spec         final(self).state == old(self).state && final(self).streams == old(self).streams && final(self).error == old(self).error,
     //@spec         final(self).go_away.graceful@ == old(self).go_away.graceful@ && final(self).go_away.from_user@ == old(self).go_away.from_user@,
-    //@spec         final(self).ping_pong == old(self).ping_pong && final(self).go_away.going_away_reason is Some,
+    //@spec         final(self).ping_pong == old(self).ping_pong && final(self).go_away.going_away_reason is Some && final(self).go_away.close_now,
     //@end
 
     //@extract src/proto/connection.rs DynConnection::go_away_from_user
@@ -255,6 +290,7 @@ impl DynConnection {
     //@spec         final(self).go_away.from_user@ == old(self).go_away.from_user@.push(frame::GoAway { last_stream_id: old(self).streams.last_processed_id, error_code: e }),
     //@spec         final(self).streams.errors@ == old(self).streams.errors@.push(Error::GoAway(e, Initiator::User)),
     //@spec         final(self).state == old(self).state && final(self).streams.resets@ == old(self).streams.resets@,
+    //@spec         final(self).go_away.close_now && final(self).ping_pong == old(self).ping_pong && final(self).streams.refused_owed == old(self).streams.refused_owed,
     //@end
 
     //@extract src/proto/connection.rs DynConnection::handle_go_away
@@ -273,6 +309,8 @@ impl DynConnection {
     //@spec             && final(self).streams.resets@ == old(self).streams.resets@ && final(self).state == old(self).state,
     //@spec         final(self).error == old(self).error && final(self).ping_pong == old(self).ping_pong,
     //@spec         i_shutdown(*old(self)) ==> i_shutdown(*final(self)),
+    //@spec         i_graceful(*old(self)) ==> i_graceful(*final(self)),
+    //@spec         final(self).streams.refused_owed == old(self).streams.refused_owed,
     //@end
 
     //@extract src/proto/connection.rs DynConnection::handle_poll2_result
@@ -292,6 +330,10 @@ impl DynConnection {
     //@spec         result matches Err(Error::Reset(_, _, i)) ==> i != Initiator::User,
     //@spec     ensures
     //@spec         i_shutdown(*old(self)) ==> i_shutdown(*final(self)),
+    //@spec         i_graceful(*old(self)) ==> i_graceful(*final(self)),
+    //@spec         final(self).ping_pong == old(self).ping_pong && final(self).streams.refused_owed == old(self).streams.refused_owed,
+    //@spec         // Closed is never entered here except for the benign EOF: every other ending goes through Closing (flush + shutdown first)
+    //@spec         final(self).state is Closed ==> final(self).state == old(self).state || final(self).state == State::Closed(Reason::NO_ERROR, Initiator::Library),
     //@spec         match result {
     //@spec             // the read side ended cleanly: flush and close
     //@spec             Ok(()) => r is Ok && final(self).state == State::Closing(Reason::NO_ERROR, Initiator::Library) && final(self).streams == old(self).streams && final(self).go_away == old(self).go_away,
@@ -336,8 +378,11 @@ impl DynConnection {
     //@spec         // I-shutdown: the graceful-shutdown PING is only outstanding after the first GOAWAY was queued
     //@spec         // (Connection::go_away_gracefully: go_away(MAX, NO_ERROR) then ping_shutdown())
     //@spec         i_shutdown(*old(self)),
+    //@spec         // I-single-slot: Connection::poll2 takes a frame only after poll_ready answered Ready (proved below)
+    //@spec         slots_free(*old(self)),
     //@spec     ensures
     //@spec         i_shutdown(*final(self)),
+    //@spec         i_graceful(*old(self)) ==> i_graceful(*final(self)),
     //@spec         final(self).state == old(self).state,
     //@spec         match frame {
     //@spec             Some(Frame::Headers(f)) => final(self).streams.calls@ == old(self).streams.calls@.push(Call::Headers(f)) && final(self).go_away == old(self).go_away && final(self).error == old(self).error,
@@ -359,17 +404,257 @@ impl DynConnection {
     //@spec             // C07: end of input: every stream is failed, and the caller is told the read side is done
     //@spec             None => r == Ok::<ReceivedFrame, Error>(ReceivedFrame::Done) && final(self).streams.calls@ == old(self).streams.calls@.push(Call::Eof),
     //@spec         },
+    //@spec         r matches Err(Error::Reset(_, _, i)) ==> i != Initiator::User,
     //@spec         // errors come from the streams layer only, and pass through unchanged (nothing else can fail here)
     //@spec         r is Err ==> (frame matches Some(Frame::Headers(_))) || (frame matches Some(Frame::Data(_))) || (frame matches Some(Frame::Reset(_)))
     //@spec             || (frame matches Some(Frame::PushPromise(_))) || (frame matches Some(Frame::WindowUpdate(_))) || (frame matches Some(Frame::GoAway(_))),
     //@end
 }
 
-/// Connection<T, P, B>, reduced to its `inner` (ConnectionInner's fields are the ones DynConnection borrows)
-pub struct Connection { pub inner: DynConnection }
+// ================================================================================================
+// The driver: Connection::{poll, poll2, poll_ready, take_error} and Streams::send_pending_refusal
+// ================================================================================================
+pub enum Poll<T> { Ready(T), Pending }
+pub struct Context { pub tag: u8 }
+
+/// Codec<T, Prioritized<B>> as the driver sees it: a source of frames (anything may arrive: the result of poll_next is
+/// unconstrained), a sink with back-pressure, and `shutdown` (flush everything, then close the write side: Kani unit
+/// fw_shutdown_flushes_first, Verus unit v_framed_write)
+pub struct Codec { pub shut: bool }
+impl Codec {
+    #[verifier::external_body]
+    pub fn poll_next(&mut self, cx: &mut Context) -> (r: Poll<Option<Result<Frame, Error>>>)
+        ensures final(self).shut == old(self).shut,
+            r matches Poll::Ready(Some(Err(Error::Reset(_, _, i)))) ==> i != Initiator::User,     // FramedRead raises library errors only
+    { unimplemented!() }
+    #[verifier::external_body]
+    pub fn poll_ready(&mut self, cx: &mut Context) -> (r: Poll<Result<(), io::ErrorKind>>)
+        ensures final(self).shut == old(self).shut,
+    { unimplemented!() }
+    #[verifier::external_body]
+    pub fn shutdown(&mut self, cx: &mut Context) -> (r: Poll<Result<(), io::ErrorKind>>)
+        ensures (r matches Poll::Ready(Ok(_))) ==> final(self).shut, !(r matches Poll::Ready(Ok(_))) ==> final(self).shut == old(self).shut,
+    { unimplemented!() }
+}
+
+impl Error {
+    pub fn library_go_away(reason: Reason) -> (r: Error) ensures r == Error::GoAway(reason, Initiator::Library) { Error::GoAway(reason, Initiator::Library) }
+}
+
+#[derive(PartialEq, Eq, Structural, Clone, Copy, Debug)]
+pub enum BufferStatus { Complete, CodecFull }
+
+impl DynStreams {
+    /// `me.actions.recv.send_pending_refusal(dst)` behind the lock: contract of the real body in unit v_recv — Complete means
+    /// the slot is empty (the RST_STREAM was buffered or nothing was owed), CodecFull means nothing changed
+    #[verifier::external_body]
+    pub fn recv_send_pending_refusal(&mut self, dst: &mut Codec) -> (r: Result<BufferStatus, io::ErrorKind>)
+        ensures
+            *final(self) == (DynStreams { refused_owed: final(self).refused_owed, ..*old(self) }), final(dst).shut == old(dst).shut,
+            r == Ok::<BufferStatus, io::ErrorKind>(BufferStatus::Complete) ==> !final(self).refused_owed,
+            !(r == Ok::<BufferStatus, io::ErrorKind>(BufferStatus::Complete)) ==> final(self).refused_owed == old(self).refused_owed,
+    { unimplemented!() }
+
+    // Streams::send_pending_refusal (streams.rs): Ready(Ok) only once the refusal slot is empty; waits for the codec otherwise.
+    // Listed substitutions: generics dropped; the lock preamble + `?` => a match on the model function above;
+    // `ready!(dst.poll_ready(cx))?` written out.
+    //@extract src/proto/streams/streams.rs Streams::send_pending_refusal
+    //@attr #[verifier::exec_allows_no_decreases_clause]
+    //@subst_re pub fn send_pending_refusal<T>\(\s*&mut self,\s*cx: &mut Context,\s*dst: &mut Codec<T, Prioritized<B>>,\s*\) -> Poll<io::Result<\(\)>>\s*where\s*T: AsyncWrite \+ Unpin, ==>> pub fn send_pending_refusal(&mut self, cx: &mut Context, dst: &mut Codec) -> Poll<Result<(), io::ErrorKind>>
+    //@subst_re let mut me = self\.inner\.lock\(\)\.unwrap\(\);\s*let me = &mut \*me;\s*me\.actions\.recv\.send_pending_refusal\(dst\)\? ==>> match self.recv_send_pending_refusal(dst) { Ok(s) => s, Err(e) => { return Poll::Ready(Err(e)); } }
+    //@subst_opt_re ready!\(dst\.poll_ready\(cx\)\)\? ==>> match dst.poll_ready(cx) { Poll::Pending => { return Poll::Pending; } Poll::Ready(Err(e)) => { return Poll::Ready(Err(e)); } Poll::Ready(Ok(())) => {} }
+    //@ret r
+    //@spec     ensures
+    //@spec         *final(self) == (DynStreams { refused_owed: final(self).refused_owed, ..*old(self) }), final(dst).shut == old(dst).shut,
+    //@spec         (r matches Poll::Ready(Ok(_))) ==> !final(self).refused_owed,
+    //@spec         !old(self).refused_owed ==> !final(self).refused_owed,
+    //@loop 0     invariant
+    //@loop 0         *self == (DynStreams { refused_owed: self.refused_owed, ..*old(self) }), dst.shut == old(dst).shut,
+    //@loop 0         !old(self).refused_owed ==> !self.refused_owed,
+    //@end
+
+    /// Streams::poll_complete: flushes what the streams layer owes (WINDOW_UPDATEs, queued frames) and the codec
+    #[verifier::external_body]
+    pub fn poll_complete(&mut self, cx: &mut Context, dst: &mut Codec) -> (r: Poll<Result<(), io::ErrorKind>>)
+        ensures *final(self) == *old(self), final(dst).shut == old(dst).shut,
+    { unimplemented!() }
+    #[verifier::external_body]
+    pub fn clear_expired_reset_streams(&mut self)
+        ensures *final(self) == *old(self),
+    { unimplemented!() }
+    #[verifier::external_body]
+    pub fn has_streams(&self) -> (r: bool) { unimplemented!() }
+}
+
+impl PingPong {
+    /// PingPong::send_pending_pong (its real body: unit v_ping_pong): Ready(Ok) only with the slot empty
+    #[verifier::external_body]
+    pub fn send_pending_pong(&mut self, cx: &mut Context, dst: &mut Codec) -> (r: Poll<Result<(), io::ErrorKind>>)
+        ensures final(self).shutdown_pending == old(self).shutdown_pending, final(dst).shut == old(dst).shut,
+            (r matches Poll::Ready(Ok(_))) ==> !final(self).pong_owed,
+            !old(self).pong_owed ==> !final(self).pong_owed,
+    { unimplemented!() }
+    #[verifier::external_body]
+    pub fn send_pending_ping(&mut self, cx: &mut Context, dst: &mut Codec) -> (r: Poll<Result<(), io::ErrorKind>>)
+        ensures final(self).shutdown_pending == old(self).shutdown_pending, final(self).pong_owed == old(self).pong_owed, final(dst).shut == old(dst).shut,
+    { unimplemented!() }
+}
+
+/// proto::Settings (its real bodies: unit v_settings): `remote_owed` = a SETTINGS frame of the peer waits for its ACK
+pub struct Settings { pub remote_owed: bool }
+impl Settings {
+    #[verifier::external_body]
+    pub fn poll_send(&mut self, cx: &mut Context, dst: &mut Codec, streams: &mut DynStreams) -> (r: Poll<Result<(), Error>>)
+        ensures (r matches Poll::Ready(Ok(_))) ==> !final(self).remote_owed, !old(self).remote_owed ==> !final(self).remote_owed,
+            r matches Poll::Ready(Err(Error::Reset(_, _, i))) ==> i != Initiator::User,
+            *final(streams) == *old(streams), final(dst).shut == old(dst).shut,
+    { unimplemented!() }
+    #[verifier::external_body]
+    pub fn recv_settings(&mut self, frame: u8, codec: &mut Codec, streams: &mut DynStreams) -> (r: Result<(), Error>)
+        requires !old(self).remote_owed,        // the real `assert!(self.remote.is_none())` (I-single-slot)
+        ensures *final(streams) == *old(streams), final(codec).shut == old(codec).shut, read_error(r),
+    { unimplemented!() }
+}
+
+impl GoAway {
+    /// GoAway::send_pending_go_away (its real body: unit v_go_away)
+    #[verifier::external_body]
+    pub fn send_pending_go_away(&mut self, cx: &mut Context, dst: &mut Codec) -> (r: Poll<Option<Result<Reason, io::ErrorKind>>>)
+        ensures
+            *final(self) == (GoAway { pending_code: final(self).pending_code, ..*old(self) }), final(dst).shut == old(dst).shut,
+            old(self).pending_code matches Some(c) ==> ((r is Pending && final(self).pending_code == old(self).pending_code)
+                || ((r matches Poll::Ready(Some(Err(_)))) && final(self).pending_code is None) || (r == Poll::<Option<Result<Reason, io::ErrorKind>>>::Ready(Some(Ok(c))) && final(self).pending_code is None)),
+            old(self).pending_code is None ==> final(self).pending_code is None
+                && r == (if old(self).close_now && old(self).going_away_reason is Some { Poll::<Option<Result<Reason, io::ErrorKind>>>::Ready(Some(Ok(old(self).going_away_reason->Some_0))) } else { Poll::<Option<Result<Reason, io::ErrorKind>>>::Ready(None) }),
+    { unimplemented!() }
+    pub fn should_close_now(&self) -> (r: bool) ensures r == (self.pending_code is None && self.close_now) { self.pending_code.is_none() && self.close_now }
+    pub fn is_user_initiated(&self) -> (r: bool) ensures r == self.is_user_initiated { self.is_user_initiated }
+    #[verifier::external_body]
+    pub fn should_close_on_idle(&self) -> (r: bool) { unimplemented!() }
+}
+
+/// Connection<T, P, B>, reduced: `inner` stands for ConnectionInner (the fields DynConnection borrows), its `settings` field
+/// sits beside it (listed substitution `self.inner.settings` => `self.settings`)
+pub struct Connection { pub codec: Codec, pub inner: DynConnection, pub settings: Settings }
+
+/// what the connection future resolves with once the state is Closed(ours, initiator) (C07 / C15 / C17): the PEER's code if
+/// it sent a GOAWAY with an error, else our own code with its initiator, else success
+pub open spec fn final_result(ours: Reason, initiator: Initiator, theirs: Option<frame::GoAway>) -> Result<(), Error> {
+    let t = match theirs { Some(f) => f.error_code, None => Reason::NO_ERROR };
+    if ours == Reason::NO_ERROR && t == Reason::NO_ERROR { Ok(()) }
+    else if t == Reason::NO_ERROR { Err(Error::GoAway(ours, initiator)) }
+    else { Err(Error::GoAway(t, Initiator::Remote)) }
+}
 
 
 impl Connection {
+    //@extract src/proto/connection.rs Connection::clear_expired_reset_streams
+    //@spec     ensures *final(self) == *old(self),
+    //@end
+
+    //@extract src/proto/connection.rs Connection::poll_go_away
+    //@subst fn poll_go_away(&mut self, cx: &mut Context) -> Poll<Option<io::Result<Reason>>>=>fn poll_go_away(&mut self, cx: &mut Context) -> Poll<Option<Result<Reason, io::ErrorKind>>>
+    //@ret r
+    //@spec     ensures
+    //@spec         *final(self) == (Connection { inner: DynConnection { go_away: final(self).inner.go_away, ..old(self).inner }, ..*old(self) }),
+    //@spec         final(self).inner.go_away == (GoAway { pending_code: final(self).inner.go_away.pending_code, ..old(self).inner.go_away }),
+    //@spec         old(self).inner.go_away.pending_code matches Some(c) ==> ((r is Pending && final(self).inner.go_away.pending_code == old(self).inner.go_away.pending_code)
+    //@spec             || ((r matches Poll::Ready(Some(Err(_)))) && final(self).inner.go_away.pending_code is None) || (r == Poll::<Option<Result<Reason, io::ErrorKind>>>::Ready(Some(Ok(c))) && final(self).inner.go_away.pending_code is None)),
+    //@spec         old(self).inner.go_away.pending_code is None ==> final(self).inner.go_away.pending_code is None
+    //@spec             && (r matches Poll::Ready(Some(Ok(_))) ==> old(self).inner.go_away.close_now),
+    //@end
+
+    // I-single-slot is ESTABLISHED here (C08 / C14): Ready(Ok) is only answered when the PING ACK owed, the SETTINGS ACK owed
+    // and the RST_STREAM(REFUSED_STREAM) owed have all been handed to the codec — the three `assert!(.. .is_none())` in
+    // PingPong::recv_ping, Settings::recv_settings and Recv::open rely on exactly this.
+    // Listed substitutions: `ready!(e)?` written out (the io::Error -> proto::Error conversion of `?` is Error::Io);
+    // `self.inner.settings` => `self.settings`; the span guards dropped (R1).
+    //@extract src/proto/connection.rs Connection::poll_ready
+    //@subst let _e = self.inner.span.enter();=>
+    //@subst_opt_re ready!\(self\.inner\.ping_pong\.send_pending_pong\(cx, \&mut self\.codec\)\)\?; ==>> match self.inner.ping_pong.send_pending_pong(cx, &mut self.codec) { Poll::Pending => { return Poll::Pending; } Poll::Ready(Err(e)) => { return Poll::Ready(Err(Error::Io(e))); } Poll::Ready(Ok(())) => {} }
+    //@subst_opt_re ready!\(self\.inner\.ping_pong\.send_pending_ping\(cx, \&mut self\.codec\)\)\?; ==>> match self.inner.ping_pong.send_pending_ping(cx, &mut self.codec) { Poll::Pending => { return Poll::Pending; } Poll::Ready(Err(e)) => { return Poll::Ready(Err(Error::Io(e))); } Poll::Ready(Ok(())) => {} }
+    //@subst_opt_re ready!\(self\s*\.inner\s*\.settings\s*\.poll_send\(cx, &mut self\.codec, &mut self\.inner\.streams\)\)\?; ==>> match self.settings.poll_send(cx, &mut self.codec, &mut self.inner.streams) { Poll::Pending => { return Poll::Pending; } Poll::Ready(Err(e)) => { return Poll::Ready(Err(e)); } Poll::Ready(Ok(())) => {} }
+    //@subst_opt_re ready!\(self\.inner\.streams\.send_pending_refusal\(cx, \&mut self\.codec\)\)\?; ==>> match self.inner.streams.send_pending_refusal(cx, &mut self.codec) { Poll::Pending => { return Poll::Pending; } Poll::Ready(Err(e)) => { return Poll::Ready(Err(Error::Io(e))); } Poll::Ready(Ok(())) => {} }
+    //@ret r
+    //@spec     ensures
+    //@spec         (r matches Poll::Ready(Ok(_))) ==> slots_free(final(self).inner) && !final(self).settings.remote_owed,
+    //@spec         r matches Poll::Ready(Err(Error::Reset(_, _, i))) ==> i != Initiator::User,
+    //@spec         // nothing else moves: state, GOAWAY bookkeeping, what the streams layer was asked, the shutdown PING
+    //@spec         final(self).inner.state == old(self).inner.state && final(self).inner.go_away == old(self).inner.go_away && final(self).inner.error == old(self).inner.error,
+    //@spec         final(self).inner.streams == (DynStreams { refused_owed: final(self).inner.streams.refused_owed, ..old(self).inner.streams }),
+    //@spec         final(self).inner.ping_pong.shutdown_pending == old(self).inner.ping_pong.shutdown_pending && final(self).codec.shut == old(self).codec.shut,
+    //@end
+
+    // The read loop (C08 / C09 / C14): before EVERY frame is taken from the codec, pending GOAWAYs are written and poll_ready
+    // has answered Ready — so recv_frame and recv_settings are only ever called with the single slots free (their
+    // preconditions are obligations at the call sites here), I-shutdown and I-graceful hold around every iteration, a
+    // frame's error leaves through the return value (to handle_poll2_result), and the real
+    // `debug_assert_eq!(reason, NO_ERROR, "graceful GOAWAY should be NO_ERROR")` cannot fire.
+    // Listed substitutions: `ready!(..)` / `?` written out; `self.inner.as_dyn()` => `self.inner`; `Pin::new(&mut self.codec)`
+    // => `self.codec`; `self.inner.settings` => `self.settings`.
+    //@extract src/proto/connection.rs Connection::poll2
+    //@attr #[verifier::exec_allows_no_decreases_clause]
+    //@subst if let Some(reason) = ready!(self.poll_go_away(cx)?) {=>let _ga = match self.poll_go_away(cx) { Poll::Pending => { return Poll::Pending; } Poll::Ready(Some(Err(e))) => { return Poll::Ready(Err(Error::Io(e))); } Poll::Ready(Some(Ok(x))) => Some(x), Poll::Ready(None) => None }; if let Some(reason) = _ga {
+    //@subst_opt_re ready!\(self\.poll_ready\(cx\)\)\?; ==>> match self.poll_ready(cx) { Poll::Pending => { return Poll::Pending; } Poll::Ready(Err(e)) => { return Poll::Ready(Err(e)); } Poll::Ready(Ok(())) => {} }
+    //@subst_re match self\s*\.inner\s*\.as_dyn\(\)\s*\.recv_frame\(ready!\(Pin::new\(&mut self\.codec\)\.poll_next\(cx\)\?\)\)\?\s*\{ ==>> let _fr = match self.codec.poll_next(cx) { Poll::Pending => { return Poll::Pending; } Poll::Ready(Some(Err(e))) => { return Poll::Ready(Err(e)); } Poll::Ready(Some(Ok(f))) => Some(f), Poll::Ready(None) => None }; let _rf = match self.inner.recv_frame(_fr) { Ok(v) => v, Err(e) => { return Poll::Ready(Err(e)); } }; match _rf {
+    //@subst_re self\.inner\.settings\.recv_settings\(\s*frame,\s*&mut self\.codec,\s*&mut self\.inner\.streams,\s*\)\?; ==>> match self.settings.recv_settings(frame, &mut self.codec, &mut self.inner.streams) { Ok(()) => {} Err(e) => { return Poll::Ready(Err(e)); } }
+    //@ret r
+    //@spec     requires
+    //@spec         i_shutdown(old(self).inner), i_graceful(old(self).inner),
+    //@spec     ensures
+    //@spec         i_shutdown(final(self).inner), i_graceful(final(self).inner),
+    //@spec         final(self).inner.state == old(self).inner.state && final(self).codec.shut == old(self).codec.shut,
+    //@spec         // an immediate close asked for by the library is reported with the code of the GOAWAY that was written
+    //@spec         r matches Poll::Ready(x) ==> read_error(x),
+    //@loop 0     invariant
+    //@loop 0         i_shutdown(self.inner), i_graceful(self.inner),
+    //@loop 0         self.inner.state == old(self).inner.state && self.codec.shut == old(self).codec.shut,
+    //@end
+
+    // C07 / C15 / C17: what the connection future resolves with
+    // Listed substitution: the `.take().as_ref().map_or(.., |frame| ..)` chain written out as a match (debug data not modelled).
+    //@extract src/proto/connection.rs Connection::take_error
+    //@subst_re let \(debug_data, theirs\) = self\s*\.inner\s*\.error\s*\.take\(\)\s*\.as_ref\(\)\s*\.map_or\(\(Bytes::new\(\), Reason::NO_ERROR\), \|frame\| \{\s*\(frame\.debug_data\(\)\.clone\(\), frame\.reason\(\)\)\s*\}\); ==>> let theirs = match self.inner.error.take() { Some(frame) => frame.reason(), None => Reason::NO_ERROR };
+    //@subst_opt_re Error::GoAway\(Bytes::new\(\), ==>> Error::GoAway(
+    //@subst_opt_re Error::remote_go_away\(debug_data, ==>> Error::remote_go_away(
+    //@ret r
+    //@spec     ensures
+    //@spec         r == final_result(ours, initiator, old(self).inner.error),
+    //@spec         final(self).inner.error is None,
+    //@spec         *final(self) == (Connection { inner: DynConnection { error: None, ..old(self).inner }, ..*old(self) }),
+    //@end
+
+    // The connection future (C07 / C12 / C15): it resolves only (a) with an I/O error, or (b) in state Closed(code, initiator)
+    // with exactly final_result(code, initiator, the peer's GOAWAY) — and Closed is only entered from Closing after the codec
+    // was flushed and shut down (the GOAWAY we owe is on the wire first), or directly for the benign EOF (NO_ERROR); every
+    // result of poll2 goes through handle_poll2_result (no error is dropped on the floor).
+    //@extract src/proto/connection.rs Connection::poll
+    //@attr #[verifier::exec_allows_no_decreases_clause]
+    //@subst_re let span = self\.inner\.span\.clone\(\);\s*let _e = span\.enter\(\);=>
+    //@subst_opt_re ready!\(self\.inner\.streams\.poll_complete\(cx, \&mut self\.codec\)\)\?; ==>> match self.inner.streams.poll_complete(cx, &mut self.codec) { Poll::Pending => { return Poll::Pending; } Poll::Ready(Err(e)) => { return Poll::Ready(Err(Error::Io(e))); } Poll::Ready(Ok(())) => {} }
+    //@subst self.inner.as_dyn().go_away_now(Reason::NO_ERROR);=>self.inner.go_away_now(Reason::NO_ERROR);
+    //@subst self.inner.as_dyn().handle_poll2_result(result)?=>match self.inner.handle_poll2_result(result) { Ok(()) => {} Err(e) => { return Poll::Ready(Err(e)); } }
+    //@subst_opt_re ready!\(self\.codec\.shutdown\(cx\)\)\?; ==>> match self.codec.shutdown(cx) { Poll::Pending => { return Poll::Pending; } Poll::Ready(Err(e)) => { return Poll::Ready(Err(Error::Io(e))); } Poll::Ready(Ok(())) => {} }
+    //@ret r
+    //@spec     requires
+    //@spec         i_shutdown(old(self).inner), i_graceful(old(self).inner),
+    //@spec     ensures
+    //@spec         i_shutdown(final(self).inner), i_graceful(final(self).inner),
+    //@spec         match r {
+    //@spec             Poll::Pending => true,
+    //@spec             Poll::Ready(x) => (x matches Err(Error::Io(_)))
+    //@spec                 || (final(self).inner.state matches State::Closed(code, initiator)
+    //@spec                     && (exists|theirs: Option<frame::GoAway>| x == #[trigger] final_result(code, initiator, theirs))
+    //@spec                     && final(self).inner.error is None
+    //@spec                     // flushed and shut down before the result is handed out — unless it was Closed already, or the benign EOF
+    //@spec                     && (final(self).codec.shut || old(self).inner.state == final(self).inner.state || (code == Reason::NO_ERROR && initiator == Initiator::Library))),
+    //@spec         },
+    //@loop 0     invariant
+    //@loop 0         i_shutdown(self.inner), i_graceful(self.inner),
+    //@loop 0         self.inner.state matches State::Closed(code, initiator) ==> (self.codec.shut || old(self).inner.state == self.inner.state || (code == Reason::NO_ERROR && initiator == Initiator::Library)),
+    //@loop 0         old(self).codec.shut ==> self.codec.shut,
+    //@end
+
     // C15 graceful shutdown, first step: GOAWAY(2^31-1, NO_ERROR) — "no new streams, everything in flight will be
     // processed" — then the PING whose ACK triggers the second GOAWAY (recv_frame above).  A shutdown already under way is
     // not restarted.  Establishes I-shutdown, the precondition of recv_frame.
@@ -379,6 +664,7 @@ impl Connection {
     //@spec     requires i_shutdown(old(self).inner),
     //@spec     ensures
     //@spec         i_shutdown(final(self).inner),
+    //@spec         i_graceful(old(self).inner) ==> i_graceful(final(self).inner),
     //@spec         old(self).inner.go_away.going_away_reason is Some ==> *final(self) == *old(self),
     //@spec         old(self).inner.go_away.going_away_reason is None ==>
     //@spec             final(self).inner.go_away.graceful@ == old(self).inner.go_away.graceful@.push(frame::GoAway { last_stream_id: StreamId(0x7fff_ffff), error_code: Reason::NO_ERROR })
